@@ -49,5 +49,57 @@ def run(res):
         nontrivial=nontrivial)
 
 
+    if getattr(res, "harness_error", None):
+        return
+    n, bad = lru_part(res)
+    res.coverage["lru_mirror_scenarios"] = n
+    res.coverage["lru_mirror_failures"] = bad
+
+
+def lru_part(res):
+    """eviction inside a Put removes the evicted key from every copy: LRU-bounded DMaps (MaxKeys through a Custom entry) on
+    3 members with 2 copies; after every Put the backup fragments must hold exactly as many keys as the primary fragments"""
+    import c10
+    scs, dmaps = [], {}
+    sid = 7000
+    for mk in ([3, 10] if res.tier == "quick" else [1, 3, 7, 10, 40]):
+        rng = vlib.rng_for(res.seed, PID, "lru", sid)
+        sc = c10.lru_scenario(rng, sid, "maxkeys", mk, 40 if res.tier == "quick" else 120, rng.choice(["uniform", "fresh", "hot"]))
+        dmaps[sc["_d"]] = {"maxkeys": mk, "lru": True, "lrusamples": 5}
+        scs.append(sc)
+        sid += 1
+    cfg = {"members": 3, "replicas": 2, "partitions": 7, "table": 1 << 16, "evict_workers": 1, "dmaps": dmaps}
+    results = dmaplib.run_groups([(cfg, scs)])
+    bad = 0
+    for sc in scs:
+        obs = results[sc["id"]]["obs"]
+        for i, (op, ob) in enumerate(zip(sc["ops"], obs)):
+            if op["op"] != "stats":
+                continue
+            m = dmaplib.mirror_lengths(ob, 2, 3)
+            if m:
+                bad += 1
+                res.violation({"kind": "impl-violates-property", "cluster": cfg, "part": "lru", "scenario": {"ops": sc["ops"][:i + 1]}, "failed_step": i,
+                               "predicate": {"name": "mirror (fragment lengths) after a Put with LRU eviction", "verdict": m}, "seed": res.seed})
+                break
+    return len(scs), bad
+
+
 def replay(res, path):
+    import json
+    obj = json.load(open(path))
+    if obj.get("part") == "lru":
+        ok, out = vlib.harness_build()
+        if not ok:
+            raise vlib.CheckError(out)
+        sc = {"id": 0, "ops": obj["scenario"]["ops"]}
+        obs = dmaplib.run_groups([(obj["cluster"], [sc])])[0]["obs"]
+        for i, (op, ob) in enumerate(zip(sc["ops"], obs)):
+            if op["op"] == "stats":
+                m = dmaplib.mirror_lengths(ob, 2, 3)
+                if m:
+                    print(m)
+                    print("VIOLATION property=%s replay=%s" % (res.pid, path))
+                    return 1
+        return 0
     return dmapcheck.replay(res, path, dmaplib.judge_seq)
